@@ -62,6 +62,14 @@ CHECKS = {
          "For every key, both addressings, every enumerated value, list and header, the helpers emit exactly header + LE32 key IDs (+ values at the size-code width), refuse more than 64 items and out-of-range values, and parsing the payload as CFG-VALSET or CFG-VALGET response exposes one correctly named attribute per key with its value; name/ID lookups agree.",
          "reference codec in the check; 4/8-byte values on boundary sets; aliases resolve to the first database name.",
          "DESIGN.md §5 C14"),
+ "C03": ("bounded exhaustive exploration of the real keyword constructor: every (type, scale) pair over all 1-/2-byte raw values (lattice + window for wider), every keyword-constructible definition x boundary raws per field x whole-message rebuilds x attribute subsets x group counts x both bitfield views; oracle = reference layout encoder and parse-then-rebuild identity",
+         "For every enumerated raw value, payload and attribute subset, feeding the parser-reported values back regenerates the payload (reserved bits aside) and keyword construction equals the reference encoding with omitted attributes zero - except the listed known findings (truncation of val/scale pinned by the repository's tests; scales below 2**-39 destroyed by 12-decimal rounding).",
+         "reference encoder in mc/refmodel/layout.py; variable-by-size groups empty under keywords (O16); _HP pairs fed as components (O6); 4-byte raws on lattice + window only.",
+         "DESIGN.md §5 C03"),
+ "C15": ("bounded exhaustive exploration of the real keyword constructor over every attribute of every keyword-constructible definition x ~42 hostile Python values (one deviation) + hostile flag pairs (two deviations) x both bitfield views; oracle = UBX error or exact reference encoding",
+         "Every enumerated hostile value is either refused with UBXMessageError/UBXTypeError or encoded exactly as the reference codec prescribes with all other fields untouched and the payload length implied by the definition; no other exception type escapes (known finding: wrong-length values for C fields).",
+         "reference codec decides whether a value fits; bool counts as int; scaled fields may differ by one unit; large legitimate group counts (>1000) skipped for cost.",
+         "DESIGN.md §5 C15"),
 }
 NOT_YET = "check not built yet in this round (planned: see DESIGN.md §5)"
 
